@@ -157,6 +157,14 @@ def tlc(module, cfg, workers=None, env=None, timeout=1800, dfs=False, xmx="8g", 
     meta = os.path.join(BUILD, "tlc", tag)
     tmp = os.path.join(BUILD, "tmp", tag)
     os.makedirs(tmp, exist_ok=True)
+    # self-test (bin/selftest): switch a pre-fix behaviour of the code-shaped specification back on; every check
+    # that depends on it must then report a violation
+    buggy = [b for b in os.environ.get("VERIF_SELFTEST_BUGGY", "").split(",") if b]
+    if buggy and cfg_text is None:
+        with open(os.path.join(SPECS, cfg)) as f:
+            cfg_text = f.read()
+    for b in buggy:
+        cfg_text = re.sub(r"\bBuggy%s = FALSE" % re.escape(b), "Buggy%s = TRUE" % b, cfg_text)
     if cfg_text is not None:
         cfgpath = os.path.join(tmp, module + ".cfg")
         with open(cfgpath, "w") as f:
